@@ -80,6 +80,7 @@ func anyLoggerType(rng *rand.Rand, app string) (string, []sys.Ref, map[string]st
 }
 
 func cmdRouting(f hx.Flags, r *hx.Result) {
+	defer rootAcrossGenerations(r)
 	rng := hx.Rand(2)
 	repeats := f.Int("repeats", 3)
 	segChoices := []segMap{
@@ -338,4 +339,94 @@ func firstLine(s string) string {
 		return s[:i]
 	}
 	return s
+}
+
+// rootAcrossGenerations: which logger is "root" is a matter of the live configuration alone.  Generation 1 configures
+// a root (ERROR and above), generation 2 configures none (the built-in console logger serves unlisted tags, every
+// level), generation 3 configures the root again.
+func rootAcrossGenerations(r *hx.Result) {
+	console := sys.InstallConsole()
+	ctx := context.Background()
+	log.Destroy()
+	log.VerifReset()
+	sys.ResetAppenders()
+	listed, unlisted := log.RegisterTag("sr_listed"), log.RegisterTag("sr_unlisted")
+	withRoot := func(gen int) sys.Cfg {
+		cfg := sys.Cfg{}
+		cfg.AddRec(fmt.Sprintf("srl%d", gen))
+		cfg.AddRec(fmt.Sprintf("srroot%d", gen))
+		cfg.AddLogger("lg", "Logger", "", "sr_listed", []sys.Ref{{Ref: fmt.Sprintf("srl%d", gen)}}, false, nil)
+		cfg.AddLogger("root", "Logger", "ERROR", "\x00", []sys.Ref{{Ref: fmt.Sprintf("srroot%d", gen)}}, false, nil)
+		return cfg
+	}
+	noRoot := func(gen int) sys.Cfg {
+		cfg := sys.Cfg{}
+		cfg.AddRec(fmt.Sprintf("srl%d", gen))
+		cfg.AddLogger("lg", "Logger", "", "sr_listed", []sys.Ref{{Ref: fmt.Sprintf("srl%d", gen)}}, false, nil)
+		return cfg
+	}
+	count := func(app string, id int64) int {
+		n := 0
+		if a := sys.Appender(app); a != nil {
+			for _, rc := range a.Recs() {
+				if rc.ID == id {
+					n++
+				}
+			}
+		}
+		return n
+	}
+	for gen, cfg := range []sys.Cfg{withRoot(1), noRoot(2), withRoot(3), noRoot(4)} {
+		gen++
+		desc := map[string]any{"generation": gen, "root_configured": gen%2 == 1, "history": "Refresh(root: ERROR..) Destroy Refresh(no root) Destroy Refresh(root) Destroy Refresh(no root)"}
+		var rerr error
+		if p := hx.Catch(func() { rerr = log.Refresh(cfg.Map(nil)) }); p != nil || rerr != nil {
+			r.Violate("good-config-rejected", desc, "Refresh of generation %d: panic=%v err=%v", gen, p, rerr)
+			log.Destroy()
+			log.VerifReset()
+			return
+		}
+		console.Take()
+		base := int64(gen * 100)
+		p := hx.Catch(func() {
+			log.Info(ctx, unlisted, log.Int("id", base+1))
+			log.Error(ctx, unlisted, log.Int("id", base+2))
+			log.Info(ctx, listed, log.Int("id", base+3))
+		})
+		log.Destroy()
+		r.Eval(3)
+		if p != nil {
+			r.Violate("log-panic:generations", desc, "logging panicked: %v", p)
+			continue
+		}
+		out := console.Take()
+		onConsole := func(id int64) int {
+			n := 0
+			for _, line := range strings.Split(out, "\n") {
+				if lid, _ := sys.ParseLine([]byte(line)); lid == id {
+					n++
+				}
+			}
+			return n
+		}
+		// where each event must be: the listed tag's logger, the configured root (ERROR and above), or the console
+		wantRootInfo, wantRootErr, wantConInfo, wantConErr := 0, 1, 0, 0
+		if gen%2 == 0 {
+			wantRootInfo, wantRootErr, wantConInfo, wantConErr = 0, 0, 1, 1
+		}
+		gotRootInfo, gotRootErr := 0, 0
+		for g := 1; g <= 4; g++ { // any root appender of any generation
+			gotRootInfo += count(fmt.Sprintf("srroot%d", g), base+1)
+			gotRootErr += count(fmt.Sprintf("srroot%d", g), base+2)
+		}
+		if gotRootInfo != wantRootInfo || gotRootErr != wantRootErr || onConsole(base+1) != wantConInfo || onConsole(base+2) != wantConErr {
+			r.Violate("wrong-server:root-across-generations", desc,
+				"tag served by root, generation %d: INFO reached root appenders %d x / console %d x (want %d / %d), ERROR %d x / %d x (want %d / %d)",
+				gen, gotRootInfo, onConsole(base+1), wantRootInfo, wantConInfo, gotRootErr, onConsole(base+2), wantRootErr, wantConErr)
+		}
+		if c := count(fmt.Sprintf("srl%d", gen), base+3); c != 1 {
+			r.Violate("wrong-server:root-across-generations", desc, "listed tag, generation %d: its logger's appender holds the event %d times", gen, c)
+		}
+	}
+	log.VerifReset()
 }
